@@ -362,6 +362,8 @@ func guard(o *Outcome, what string, f func()) (ok bool) {
 				o.Fail("hang:"+what, "%s: logical loop budget exceeded (endless loop)", what)
 			case sched.ExitSentinel:
 				o.Fail("process-exit:"+what, "%s: the library called os.Exit(%d)", what, v.Code)
+			case needsScheduler:
+				panic(p) // not a verdict: the caller repeats the case inside the scheduler
 			default:
 				st := string(debug.Stack())
 				if strings.HasPrefix(fmt.Sprint(p), "harness:") {
